@@ -163,7 +163,8 @@ func linkReq(id uint16, key, name, channel string, sub bool) []byte {
 	return mqttref.Publish(id, "emitter/link/", body, 1, false)
 }
 
-var c08Filters = []string{"a/b/", "a/c/", "a/b/c/", "a/+/", "b/a/", "a/a/", "b/b/", "a/c/b/", "a/b/a/", "c/c/", "a/b/b/a/", "a/c/c/a/"}
+// (the share-group filters sit outside a/, the branch whose presence the watcher follows)
+var c08Filters = []string{"a/b/", "a/c/", "a/b/c/", "a/+/", "b/a/", "a/a/", "b/b/", "a/c/b/", "a/b/a/", "c/c/", "a/b/b/a/", "a/c/c/a/", "$share/g1/b/s/", "$share/g2/c/s/t/", "$share/g1/b/s/"}
 
 // groups of three or more filters whose ssids fold to the same per-connection hash code
 var c08Colliding = [][]string{{"a/a/", "b/b/", "c/c/"}, {"a/b/c/", "a/c/b/", "b/a/c/", "c/a/b/"}, {"a/b/", "b/a/", "a/b/c/c/"}}
